@@ -309,7 +309,7 @@ func TestCheck(t *testing.T) {
 	mock.RegisterTransport()
 	r := h.Start(t, "C19")
 	defer r.Finish()
-	r.Meta("rule", "under virtual time a real Service+Broker over the mock transport, observed at the published functions (+ - < > >? >*) through raw invocations carrying an id header, and through push.Prosumer callbacks. Exhaustive grid: one publish at every 1 ms offset from -5 to +15 ms around the poll-timeout instant x client re-poll latency {0,1,10 ms} x {unicast, multicast, broadcast} x {1,2} messages; seeded random histories with 1..3 clients x 1..3 topics, several publishers released at one virtual instant, subscribe/unsubscribe during traffic, heartbeat {0, large}; a drain phase of further polls; oracle over unique message ids: exactly once, never to a client/topic it was not accepted for, order under the real-time partial order of publishes (logical clock), conservation accepted = delivered + handed to OnUnsubscribe (publishes overlapping an unsubscribe may be delivered 0 or 1 times), a client subscribed from the start that never unsubscribes and polls continuously must have every publish accepted (accepted/total is reported in the statistics); a Prosumer whose loop is running subscribes to further topics while the broker greets it from OnSubscribe and publishers follow at once; and the explicit stop-polling-goes-offline scenario with a small heartbeat which is excluded from the no-loss clause. distinct_nontrivial = distinct (scenario, offset/latency/seed) combinations with at least one accepted message")
+	r.Meta("rule", "under virtual time a real Service+Broker over the mock transport, observed at the published functions (+ - < > >? >*) through raw invocations carrying an id header, and through push.Prosumer callbacks. Exhaustive grid: one publish at every 1 ms offset from -5 to +15 ms around the poll-timeout instant x client re-poll latency {0,1,10 ms} x {unicast, multicast, broadcast} x {1,2} messages; seeded random histories with 1..3 clients x 1..3 topics, several publishers released at one virtual instant, subscribe/unsubscribe during traffic, heartbeat {0, large}; a drain phase of further polls; oracle over unique message ids: exactly once, never to a client/topic it was not accepted for, order under the real-time partial order of publishes (logical clock), conservation accepted = delivered + handed to OnUnsubscribe (publishes overlapping an unsubscribe may be delivered 0 or 1 times), a client subscribed from the start that never unsubscribes and polls continuously must have every publish accepted (accepted/total is reported in the statistics); a Prosumer whose loop is running subscribes to further topics while the broker greets it from OnSubscribe and publishers follow at once; and the explicit stop-polling-goes-offline scenario with a small heartbeat which is excluded from the no-loss clause. distinct_nontrivial = distinct (scenario, offset/latency/seed) combinations with at least one accepted message Added: a client subscribed from the start that polls continuously must have every publish accepted; a Prosumer subscribing to further topics while its loop runs; every replay carries the recorded history.")
 	r.Meta("assumptions", []string{
 		"a client that stops polling beyond the heartbeat is outside the no-loss clause (as the property words it); heartbeat is 0 or large in all other scenarios",
 		"publishes that overlap an unsubscribe of the same (client, topic) may be delivered zero or one time, never twice",
